@@ -327,6 +327,24 @@ def ctor_norm_interp(ctx):
         T2[:3, :3] += 1e-6 * noise
         run(ctx, 'C01/base.trnorm/SE3/%s' % gn, 'base.trnorm', dict(g=gn.split('|')[0], noise='1e-6', form='SE3'), 'SE3', b.trnorm, T2, key=('trnormT', gn))
         run(ctx, 'C01/SE3.norm/%s' % gn, 'SE3.norm', dict(g=gn.split('|')[0]), 'SE3', lambda T2=T2: sm.SE3(T2, check=False).norm(), key=('SE3norm', gn))
+    # 2-D: every noise pattern (shear, scale, single element) x magnitude, on the function and through the classes
+    pat2 = (('full', noise[:2, :2]), ('shear', np.array([[0.0, 1.0], [0.0, 0.0]])), ('scale', np.eye(2)), ('e00', np.array([[1.0, 0.0], [0.0, 0.0]])),
+            ('col1', np.array([[0.0, 0.6], [0.0, -0.8]])))
+    for gn, R in G2:
+        for (pn, N2), (mn, m) in itertools.product(pat2, (('0', 0.0), ('1e-12', 1e-12), ('1e-6', 1e-6), ('1e-3', 1e-3))):
+            P = dict(g=gn, noise=mn, pattern=pn)
+            R2 = R + m * N2
+            run(ctx, 'C01/base.trnorm2/SO2/%s/%s/noise=%s' % (gn, pn, mn), 'base.trnorm2', dict(P, form='SO2'), 'SO2', b.trnorm2, R2.copy(), key=('trnorm2', gn, pn, mn))
+            run(ctx, 'C01/SO2.norm/%s/%s/noise=%s' % (gn, pn, mn), 'SO2.norm', P, 'SO2', lambda R2=R2: sm.SO2(R2.copy(), check=False).norm(), key=('SO2norm', gn, pn, mn))
+            T2 = ref.rt(R2, (1.5, -2.5))
+            run(ctx, 'C01/base.trnorm2/SE2/%s/%s/noise=%s' % (gn, pn, mn), 'base.trnorm2', dict(P, form='SE2'), 'SE2', b.trnorm2, T2.copy(), key=('trnorm2T', gn, pn, mn))
+            run(ctx, 'C01/SE2.norm/%s/%s/noise=%s' % (gn, pn, mn), 'SE2.norm', P, 'SE2', lambda T2=T2: sm.SE2(T2.copy(), check=False).norm(), key=('SE2norm', gn, pn, mn))
+    for gn, R in G3:
+        for (pn, N3), (mn, m) in itertools.product((('shear', np.array([[0.0, 1.0, 0.0], [0.0, 0.0, 0.0], [0.0, 0.0, 0.0]])), ('e00', np.diag([1.0, 0, 0])), ('scale', np.eye(3))),
+                                                   (('1e-6', 1e-6), ('1e-3', 1e-3))):
+            R3 = R + m * N3
+            run(ctx, 'C01/SO3.norm/%s/%s/noise=%s' % (gn, pn, mn), 'SO3.norm', dict(g=gn, noise=mn, pattern=pn), 'SO3', lambda R3=R3: sm.SO3(R3.copy(), check=False).norm(),
+                key=('SO3norm', gn, pn, mn))
     S = [('0', 0.0), ('1e-12', 1e-12), ('0.3', 0.3), ('0.5', 0.5), ('1-1e-12', 1 - 1e-12), ('1', 1.0)]
     for (an, A), (bn, B) in itertools.product(G3[:6], G3):
         for sn, s in S:
